@@ -4,6 +4,7 @@ import (
 	"fmt"
 	"go/ast"
 	"go/token"
+	"strings"
 )
 
 // C17: where the two halves of the plain-UDP upstream connect. The `udp` case
@@ -302,5 +303,109 @@ func init() {
 			note += " [" + why + "]"
 		}
 		ex.setBool("c17UdpSideReadsQueryOnly", readsOnly, ok, note)
+	})
+}
+
+// C17, "the TCP reply is what the caller gets": the TCP half is a
+// ReuseConnTransport, which does not match replies to queries by id; a reply
+// read from a connection goes to whoever waits on it. The caller gets the reply
+// to ITS query only if a connection enters the idle pool when no reply is owed
+// on it. The fact below reads that off pkg/upstream/transport/reuse.go:
+//   - idleConns is written (idleConns[..] = ..) only inside setIdle;
+//   - setIdle is called from exactly two functions: getNewConn (a connection
+//     that was just dialled: nothing was written on it) and
+//     reusableConn.readLoop, there after dnsutils.ReadRawMsgFromTCP (a reply
+//     was read) and only once;
+//   - reusableConn.exchange writes c.waitingResp exactly once (registering its
+//     channel) and does not call setIdle: a caller that stops waiting (context
+//     ended, connection closed) leaves the connection out of the pool.
+func init() {
+	factFuncs = append(factFuncs, func(ex *factExtractor) {
+		const rel = "pkg/upstream/transport/reuse.go"
+		const name = "c17TcpConnIdleOnlyWhenNothingOwed"
+		f := ex.file(rel)
+		exch := ex.fn(rel, "reusableConn", "exchange")
+		rl := ex.fn(rel, "reusableConn", "readLoop")
+		if f == nil || exch == nil || rl == nil || ex.fn(rel, "ReuseConnTransport", "setIdle") == nil {
+			ex.setBool(name, false, false, "reuse.go: reusableConn.exchange / readLoop / ReuseConnTransport.setIdle not found")
+			return
+		}
+		ok := true
+		var why []string
+		for _, d := range f.Decls {
+			fd, isFn := d.(*ast.FuncDecl)
+			if !isFn || fd.Body == nil {
+				continue
+			}
+			nSet, nIdleWrite := 0, 0
+			ast.Inspect(fd.Body, func(x ast.Node) bool {
+				switch s := x.(type) {
+				case *ast.CallExpr:
+					if fn := ex.str(s.Fun); fn == "setIdle" || strings.HasSuffix(fn, ".setIdle") {
+						nSet++
+					}
+				case *ast.AssignStmt:
+					for _, l := range s.Lhs {
+						if ix, isIx := l.(*ast.IndexExpr); isIx && strings.HasSuffix(ex.str(ix.X), "idleConns") {
+							nIdleWrite++
+						}
+					}
+				}
+				return true
+			})
+			switch fd.Name.Name {
+			case "setIdle":
+				if nSet != 0 {
+					ok = false
+					why = append(why, "setIdle calls itself")
+				}
+			case "getNewConn", "readLoop":
+				if nSet > 1 || nIdleWrite != 0 {
+					ok = false
+					why = append(why, fd.Name.Name+": more than one setIdle call or a direct idleConns write")
+				}
+			default:
+				if nSet != 0 || nIdleWrite != 0 {
+					ok = false
+					why = append(why, fd.Name.Name+" puts a connection into the idle pool")
+				}
+			}
+		}
+		// readLoop: the setIdle call comes after the read of a reply
+		cs := ex.calls(rl.Body)
+		iRead, iSet := -1, -1
+		for i, c := range cs {
+			if c == "dnsutils.ReadRawMsgFromTCP" && iRead < 0 {
+				iRead = i
+			}
+			if strings.HasSuffix(c, ".setIdle") && iSet < 0 {
+				iSet = i
+			}
+		}
+		if iRead < 0 || iSet < iRead {
+			ok = false
+			why = append(why, "readLoop: setIdle not after ReadRawMsgFromTCP")
+		}
+		// exchange: c.waitingResp written exactly once
+		nW := 0
+		ast.Inspect(exch.Body, func(x ast.Node) bool {
+			if s, isAs := x.(*ast.AssignStmt); isAs {
+				for _, l := range s.Lhs {
+					if strings.HasSuffix(ex.str(l), ".waitingResp") {
+						nW++
+					}
+				}
+			}
+			return true
+		})
+		if nW != 1 {
+			ok = false
+			why = append(why, fmt.Sprintf("exchange writes waitingResp %d times", nW))
+		}
+		note := "reuse.go: a connection enters idleConns only through setIdle, called for a freshly dialled connection (getNewConn) and by readLoop after a reply was read; reusableConn.exchange registers its channel once and never calls setIdle (a caller that stops waiting leaves the connection busy)"
+		if !ok {
+			note = "reuse.go: " + strings.Join(why, "; ")
+		}
+		ex.setBool(name, ok, true, note)
 	})
 }
